@@ -817,6 +817,19 @@ fn new_map<S: event::Subscriber>(signer_secret: &[u8], evict: bool, sub: S) -> M
 }
 
 fn map(input: &[V]) -> Vec<V> {
+    // entries "younger than 10 s" must really be: repeat a case that was stalled by the machine
+    for _ in 0..3 {
+        let t0 = std::time::Instant::now();
+        let out = map_once(input);
+        let aged = input.get(1).copied().unwrap_or(0) != 0;
+        if aged || t0.elapsed() < std::time::Duration::from_secs(8) {
+            return out;
+        }
+    }
+    map_once(input)
+}
+
+fn map_once(input: &[V]) -> Vec<V> {
     use s2n_quic_dc::path::secret::verif_hooks;
     let mut c = Cur::new(input);
     let mut out = vec![];
